@@ -54,7 +54,7 @@ done
 set -- $modes
 m0=$1; m1=$2
 if [ "$m0" = r ] || [ "$m0" = b ]; then
-  data=$(cat <&0; echo x)
+  data=$(cat <&0 | tr '\000' '@'; echo x)
   data=${data%x}
   if [ "$m1" = w ] || [ "$m1" = b ]; then
     printf '%s<%s>\n' "$tag" "$data" >&1
@@ -98,9 +98,48 @@ def gen_redir(rng, fds, nc):
         return ("w", n if rng.random() < 0.3 else None, rng.choice([4, 5, 6]))
     if r < 0.92:
         return ("s", n if rng.random() < 0.4 else None, rng.choice(["hs", "W", "x1"]))
-    body = "".join(rng.choice(["l1\n", "two words\n", "\ttab\n", "E\n"[0:0], "$x \\ '\"\n", "EOFX\n", " EOF\n"])
-                   for _ in range(rng.randrange(0, 3)))
-    return ("h", n if rng.random() < 0.4 else None, body)
+    return gen_heredoc(rng, n if rng.random() < 0.4 else None)
+
+
+XVAL = "Xv al"
+HLINES = ["l1", "two words", "\ttab", "\t\tEOF x", "$x \\ '\"", "EOFX", " EOF", "a $x b", "${x}", "\\$x", "\\\\", "q\\q", "'$x'", ""]
+HLINES_BSNL = HLINES + ["cont\\", "\tc2\\", "\\\\\\", "a ) b", "( c", "d\"q"]
+KF_SUBST = "KF-C10-heredoc-in-command-substitution-special-chars"
+
+
+def expand_doc(body):
+    """bash: in a here-document with an unquoted delimiter: $x / ${x} expand, backslash quotes only $ ` \\ and
+    removes a following newline"""
+    out = []
+    i = 0
+    while i < len(body):
+        c = body[i]
+        if c == "\\" and i + 1 < len(body) and body[i + 1] in "$`\\":
+            out.append(body[i + 1]); i += 2
+        elif c == "\\" and i + 1 < len(body) and body[i + 1] == "\n":
+            i += 2
+        elif body.startswith("${x}", i):
+            out.append(XVAL); i += 4
+        elif body.startswith("$x", i):
+            out.append(XVAL); i += 2
+        else:
+            out.append(c); i += 1
+    return "".join(out)
+
+
+def gen_heredoc(rng, n):
+    lines = [rng.choice(HLINES) for _ in range(rng.randrange(0, 4))]
+    strip = rng.random() < 0.35
+    mode = rng.choice(["sq", "sq", "bs", "dq", "plain", "plain"])
+    tagtok = {"sq": "'EOF'", "bs": "\\EOF", "dq": '"EOF"', "plain": "EOF"}[mode]
+    lines = [l + "x" if (l.lstrip("\t") if strip else l) == "EOF" else l for l in lines]
+    raw = "".join(l + "\n" for l in lines)
+    doc = "".join((l.lstrip("\t") if strip else l) + "\n" for l in lines)
+    cls6 = False
+    if mode == "plain":
+        cls6 = "\\\n" in doc
+        doc = expand_doc(doc)
+    return ("h", n, doc, raw, tagtok, strip, cls6)
 
 
 def gen_redirs(rng, nc, maxlen=4, p_empty=0.25):
@@ -208,8 +247,8 @@ class Render:
         if t == "s":
             return "%s<<<%s" % (opt(r[1]), r[2])
         if t == "h":
-            self.docs.append(r[2])
-            return "%s<<'EOF'" % opt(r[1])
+            self.docs.append(r[3] + ("\t" if r[5] else "") + "EOF\n")
+            return "%s<<%s%s" % (opt(r[1]), "-" if r[5] else "", r[4])
         raise ValueError(r)
 
     def redirs(self, rs):
@@ -250,7 +289,7 @@ class Render:
         line = "; ".join(self.cmd(c) for c in prog)
         if not self.docs:
             return line
-        return line + "\n" + "".join(d + "EOF\n" for d in self.docs)
+        return line + "\n" + "".join(self.docs)
 
 
 # ------------------------------------------------------------------ diagnostics tables
@@ -335,7 +374,7 @@ def model_fields(case, msgs):
 
 def script_of(case):
     s = Render().script(case["prog"])
-    return ("set -C; " if case["nc"] else "") + s
+    return "x='%s'; " % XVAL + ("set -C; " if case["nc"] else "") + s
 
 
 def run_shell(shell_argv, case, d, bindir, executable=None):
@@ -366,7 +405,7 @@ def run_shell(shell_argv, case, d, bindir, executable=None):
             res[name] = (False, "")
     if executable:
         for name in ("out", "err", "a", "b", "c"):
-            res[name] = (res[name][0], re.sub(r"environment: line \d: ", "environment: line 1: ", res[name][1]))
+            res[name] = (res[name][0], re.sub(r"environment: line \d+: ", "environment: line 1: ", res[name][1]))
     extra = sorted(x for x in os.listdir(d) if x not in ("a", "b", "c", ".obs"))
     res["extra"] = extra
     res["status"] = status
@@ -398,6 +437,21 @@ def parse_model(line):
 FLAG_IDS = ["KF-C10-andgreater-ignores-noclobber", "KF-C10-compound-redirect-failure-aborts",
             "KF-C10-exec-leaks-enclosing-redirections", "KF-C10-std-stream-dup-inherits-same-number",
             "KF-C10-closed-std-descriptor-inherited", "KF-C10-selfdup-of-closed-descriptor"]
+KF_BSNL = "KF-C10-heredoc-backslash-newline-kept"
+
+
+def has_bsnl(case):
+    """unquoted here-document whose body contains backslash-newline (python side of the class predicate)"""
+    def rs_has(rs):
+        return any(r[0] == "h" and r[6] for r in rs)
+
+    def walk(c):
+        if c[0] in ("S", "X"):
+            return rs_has(c[1])
+        if c[0] == "G":
+            return rs_has(c[2]) or any(walk(b) for b in c[3])
+        return rs_has(c[1]) or rs_has(c[2]) or any(walk(b) for b in c[3])
+    return any(walk(c) for c in case["prog"])
 
 
 def obs_equal(code, want):
@@ -456,6 +510,30 @@ def scratch_root():
     return root
 
 
+WITNESSES = [
+    # (class id, script, predicate on (stdout, stderr) that holds when the defect is REPAIRED)
+    (FLAG_IDS[0], "echo old >wa; set -C; echo x &>wa; cat wa", lambda o, e: o == "old\n"),
+    (FLAG_IDS[1], "{ echo in; } >&7; echo after", lambda o, e: o == "after\n"),
+    (FLAG_IDS[2], "{ exec 5>/dev/null; } 2>/dev/null; echo e >&2", lambda o, e: e == "e\n"),
+    (FLAG_IDS[3], "ls /nonexistent-c10 2>&1", lambda o, e: "nonexistent" in o and e == ""),
+    (FLAG_IDS[4], "/bin/echo hi >&-", lambda o, e: o == ""),
+    (FLAG_IDS[5], "echo hi 4>&4", lambda o, e: o == "hi\n"),
+]
+
+
+def repaired_classes(ctx, root):
+    """classes whose witness no longer reproduces on the code under test: the model (which follows the code as
+    recorded in the finding) is not compared inside them"""
+    d = os.path.join(root, "wit")
+    out = set()
+    for cid, script, ok in WITNESSES:
+        o, e = run_hd([ctx.vbrush, "--norc", "--noprofile"], {"script": script}, d)
+        if ok(o, e):
+            out.add(cid)
+    shutil.rmtree(d, ignore_errors=True)
+    return out
+
+
 def eval_redir_cases(ctx, cases, root, with_bash, sub="r"):
     """-> (mismatches, spec violations, stats)"""
     bindir = os.path.join(root, "bin")
@@ -464,6 +542,7 @@ def eval_redir_cases(ctx, cases, root, with_bash, sub="r"):
     fields = [model_fields(c, brush_msgs(d)) for c, d in zip(cases, dirs)]
     model = ctx.model("c10_run", fields)
     code = run_many([ctx.vbrush, "--norc", "--noprofile"], cases, root, bindir)
+    repaired = repaired_classes(ctx, root)
     mism, specv, stale = [], [], {}
     stats = {"flagged": 0, "by_flag": {}, "code_eq_spec": 0}
     parsed = []
@@ -473,6 +552,9 @@ def eval_redir_cases(ctx, cases, root, with_bash, sub="r"):
         if pm is None:
             raise core.CheckBroken("model output not understood: %r for %r" % (ml[:200], script_of(case)))
         flags = [FLAG_IDS[i] for i, b in enumerate(pm["flags"]) if b]
+        bsnl = has_bsnl(case)
+        if bsnl:
+            flags.append(KF_BSNL)
         if flags:
             stats["flagged"] += 1
             for fl in flags:
@@ -490,7 +572,7 @@ def eval_redir_cases(ctx, cases, root, with_bash, sub="r"):
                 v["classes"] = flags
             specv.append(v)
         if not eq_model:
-            if flags and eq_spec:
+            if flags and (eq_spec or any(fl in repaired for fl in flags)):
                 for fl in flags:
                     stale[fl] = stale.get(fl, 0) + 1     # defect repaired in the code: the model is behind
             else:
@@ -673,6 +755,92 @@ def eval_here_cases(ctx, cases):
     return mism, specv, stats
 
 
+# ------------------------------------------------------------------ here-documents at process level (python oracle + bash)
+
+def gen_hdproc_case(rng):
+    """-> dict(script, expected stdout, bsnl class?)"""
+    def one_doc(tag):
+        lines = [rng.choice(HLINES_BSNL) for _ in range(rng.randrange(0, 5))]
+        strip = rng.random() < 0.4
+        mode = rng.choice(["sq", "bs", "dq", "plain", "plain", "plain"])
+        tagtok = {"sq": "'%s'", "bs": "\\%s", "dq": '"%s"', "plain": "%s"}[mode] % tag
+        lines = [l + "x" if (l.lstrip("\t") if strip else l) == tag else l for l in lines]
+        if mode == "plain" and lines and lines[-1].endswith("\\") and not lines[-1].endswith("\\\\"):
+            lines.append("tail")          # a continuation must not swallow the delimiter line
+        raw = "".join(l + "\n" for l in lines) + ("\t" if strip and rng.random() < 0.5 else "") + tag + "\n"
+        doc = "".join((l.lstrip("\t") if strip else l) + "\n" for l in lines)
+        bs = False
+        if mode == "plain":
+            bs = "\\\n" in doc
+            doc = expand_doc(doc)
+        return "<<" + ("-" if strip else "") + tagtok, raw, doc, bs
+    special = lambda raw: any(ch in raw for ch in '"()')
+    shape = rng.choice(["plain", "subst", "func", "two", "two_subst"])
+    op1, raw1, doc1, bs1 = one_doc("EOF")
+    if shape == "plain":
+        return {"script": "cat %s\n%s" % (op1, raw1), "expected": doc1, "bsnl": bs1, "shape": shape}
+    if shape == "subst":
+        return {"script": "v=$(cat %s\n%s); printf '%%s\\n' \"$v\"" % (op1, raw1), "expected": doc1.rstrip("\n") + "\n",
+                "bsnl": bs1, "shape": shape, "subst_special": special(raw1)}
+    if shape == "func":
+        return {"script": "f() { cat %s\n%s}; f; f" % (op1, raw1), "expected": doc1 + doc1, "bsnl": bs1, "shape": shape}
+    op2, raw2, doc2, bs2 = one_doc("E2")
+    if shape == "two":
+        return {"script": "{ cat; cat <&3; } %s 3%s\n%s%s" % (op1, op2, raw1, raw2), "expected": doc1 + doc2,
+                "bsnl": bs1 or bs2, "shape": shape}
+    return {"script": "v=$({ cat; cat <&3; } %s 3%s\n%s%s); printf '%%s\\n' \"$v\"" % (op1, op2, raw1, raw2),
+            "expected": (doc1 + doc2).rstrip("\n") + "\n", "bsnl": bs1 or bs2, "shape": shape,
+            "subst_special": special(raw1) or special(raw2)}
+
+
+KF_MOVE = "KF-C10-move-fd-closes-wrong-descriptor"
+MOVE_CASES = [
+    {"script": "echo hi 3>&1 >&3-", "expected": "hi\n", "bsnl": False, "shape": "movefd", "move": True},
+    {"script": "/bin/echo hi 3>&1 >&3-", "expected": "hi\n", "bsnl": False, "shape": "movefd", "move": True},
+    {"script": "{ echo hi; } 3>&1 >&3-", "expected": "hi\n", "bsnl": False, "shape": "movefd", "move": True},
+    {"script": "( echo hi >&4 ) 4>&1-", "expected": "hi\n", "bsnl": False, "shape": "movefd", "move": True},
+]
+
+
+def run_hd(shell_argv, case, d, executable=None):
+    os.makedirs(d, exist_ok=True)
+    env = {"PATH": "/usr/bin:/bin", "HOME": d, "LANG": "C", "TERM": "dumb"}
+    try:
+        p = subprocess.run(shell_argv + ["-c", "x='%s'; %s" % (XVAL, case["script"])], stdin=subprocess.DEVNULL,
+                           stdout=subprocess.PIPE, stderr=subprocess.PIPE, cwd=d, env=env, timeout=20, executable=executable)
+        return p.stdout.decode("utf-8", "replace"), p.stderr.decode("utf-8", "replace")[:300]
+    except subprocess.TimeoutExpired:
+        return "TIMEOUT", ""
+
+
+def eval_hdproc_cases(ctx, cases, root):
+    d = os.path.join(root, "hd")
+    os.makedirs(d, exist_ok=True)
+    with ThreadPoolExecutor(max_workers=max(2, min(8, (os.cpu_count() or 4) // 2))) as ex:
+        code = list(ex.map(lambda c: run_hd([ctx.vbrush, "--norc", "--noprofile"], c, d), cases))
+        bash = list(ex.map(lambda c: run_hd(["/usr/bin/bash", "--norc", "--noprofile"], c, d), cases))
+    specv = []
+    stats = {"cases": len(cases), "oracle_equals_bash": 0, "code_equals_oracle": 0, "by_shape": {}}
+    for c, (co, ce), (bo, be) in zip(cases, code, bash):
+        stats["by_shape"][c["shape"]] = stats["by_shape"].get(c["shape"], 0) + 1
+        if bo != c["expected"]:
+            continue            # the python oracle is wrong about bash here: not evidence of anything
+        stats["oracle_equals_bash"] += 1
+        if co == c["expected"]:
+            stats["code_equals_oracle"] += 1
+            continue
+        v = {"input": {"script": c["script"]},
+             "why": "here-document content differs from bash: code=%r expected=%r stderr=%r" % (co, c["expected"], ce)}
+        if c.get("move"):
+            v["known"] = KF_MOVE
+        elif c.get("subst_special"):
+            v["known"] = KF_SUBST
+        elif c["bsnl"]:
+            v["known"] = KF_BSNL
+        specv.append(v)
+    return specv, stats
+
+
 # ------------------------------------------------------------------ entry points
 
 def run(ctx):
@@ -686,6 +854,9 @@ def run(ctx):
             # bash second opinion on a sample even in the quick tier
             sample = cases[:150]
             _, _, _, _, bash_stats, _, _ = eval_redir_cases(ctx, sample, root, with_bash=True, sub="b")
+        hp = [gen_hdproc_case(rng) for _ in range(600 if ctx.quick else 6000)] + MOVE_CASES
+        hpv, hpstats = eval_hdproc_cases(ctx, hp, root)
+        specv += hpv
     finally:
         shutil.rmtree(root, ignore_errors=True)
     n_here = 3000 if ctx.quick else 40000
@@ -714,9 +885,10 @@ def run(ctx):
     dist["by_class"] = stats["by_flag"]
     dist["code_equals_spec"] = stats["code_eq_spec"]
     dist["heredoc"] = hstats
+    dist["heredoc_process_level"] = hpstats
     distinct = {script_of(c) + repr(c["files"]) for c in cases if nontrivial(c)} | {c["input"] for c in hcases if c["docs"]}
     res = {
-        "evaluations": len(cases) + len(hcases),
+        "evaluations": len(cases) + len(hcases) + len(hp),
         "distinct_nontrivial": len(distinct),
         "rule": "process level: random programs (1-3 commands + a final probe) of simple commands (builtin echo / external fdprobe), exec, "
                 "brace groups, subshells, for loops and functions (definition + call redirections), nested <= 2, every redirection list of "
@@ -726,7 +898,9 @@ def run(ctx):
                 "to every writable descriptor and echoes what it reads from 0). non-trivial = at least two redirections; distinct by script "
                 "text + initial files. tokenizer level: first line with 1-3 here-document operators (<< / <<-, delimiter unquoted or quoted "
                 "in 5 ways) followed by bodies drawn from lines equal to / containing / prefixed by the delimiter, tabs, $, backslashes, "
-                "quotes; 8% end tag at end of input, 6% truncated; non-trivial = all; distinct by input text",
+                "quotes; 8% end tag at end of input, 6% truncated; non-trivial = all; distinct by input text. here-documents at process level "
+                "(python oracle of bash's rules, kept only where real bash agrees with it): cat of 1-2 documents, plain / inside $( ) / inside a "
+                "function, << and <<-, quoted and unquoted delimiters, bodies with $x, backslash forms, backslash-newline",
         "samples": [{"script": script_of(c)} for c in cases[:3]] + [{"tokenizer_input": c["input"]} for c in hcases[:2]],
         "distribution": dist,
         "extraction_crosscheck": {"cases": len(idx) + len(hidx), "agree": len(idx) + len(hidx) - len(bad)},
